@@ -39,6 +39,13 @@ attribute values, followed (passive simulators) by a diffusion step with the dt 
 cached at the first query is stale there).  The kernel-level maximum-principle leg hands the SAME scratch flux array object
 (refilled with garbage, ring included) to all 15 calls per shape (a ring reset done only on first sight of an array).
 
+Self-test of the added dimensions: passive_transport_flow_simulators.py:133 kinematic_viscosity=self.kinematic_viscosity ->
+self.__dict__.setdefault("_nu0", self.kinematic_viscosity) (viscosity frozen at the first query) -> VIOLATION
+diffusion-limit-exceeded, witnesses on the 'same-object-history' queries after 'nu-up'.
+
+diffusion_flux_2d.py:70 ghost-ring reset of the flux performed only the first time an array object (id) is seen (sed) -> VIOLATION
+diffusion-ring-changed (kernel leg, 2nd and later calls on the reused scratch object).
+
 Known genuine defect on the pinned tree (F2): the diffusion limit is ``0.9 dx^2/(2d)/nu + tol`` with
 tol = 10 eps, so nu dt/dx^2 = 0.225 + 10 eps nu/dx^2 when the step is diffusion-limited, e.g.
 float32, dx = 1/256, nu = 0.5: 0.264 > 0.25 -> mechanism ``diffusion-limit-exceeded``.  Silent with
